@@ -306,6 +306,83 @@ def pop_event_of(p: Path, value, names=('popfirst',)) -> Optional[Event]:
 COPY_CALL_NAMES = {'deepcopy', 'copy', 'array', 'asarray', 'asfarray', 'ascontiguousarray'}
 
 
+_LEN_FIRST_ARG = {'copy', 'asarray', 'array', 'ascontiguousarray', 'asfarray', 'cumsum', 'cumprod', 'abs', 'absolute',
+                  'sqrt', 'exp', 'exp2', 'log', 'log2', 'negative', 'flip', 'sort', 'outer', 'double', 'float64',
+                  'reciprocal', 'square', 'ravel', 'flatten', 'astype', 'tolist', 'list', 'tuple'}
+_LEN_ANY_ARG = {'ldexp', 'power', 'float_power', 'multiply', 'add', 'subtract', 'divide', 'true_divide', 'maximum',
+                'minimum'}
+
+
+def length_of_key(k) -> Optional[RF]:
+    """Number of elements along the first axis of the array / sequence a symbolic key stands for, as far as the
+    numpy constructors and element-wise operations used to build it determine it."""
+    if not isinstance(k, tuple) or not k:
+        return None
+    t = k[0]
+    if t == 'rf':
+        return length_of(rf_from_key(k))
+    if t == 'range':
+        if len(k) == 2:
+            return rf_from_key(k[1])
+        if len(k) == 3:
+            return rf_from_key(k[2]) - rf_from_key(k[1])
+        return None
+    if t == 'tuple' and len(k) == 2 and isinstance(k[1], tuple):
+        return RF.const(len(k[1]))
+    if t == 'display' and len(k) == 3 and isinstance(k[2], int):
+        return RF.const(k[2])
+    if t == 'pow' and len(k) == 3:
+        return length_of_key(k[2]) or length_of_key(k[1])
+    if t == 'comp' and len(k) == 3:
+        return length_of_key(k[2])
+    if t == 'call' and len(k) >= 3 and isinstance(k[1], str) and isinstance(k[2], tuple):
+        name, args = k[1].split('.')[-1], k[2]
+        if name == 'arange':
+            if len(args) == 1:
+                return rf_from_key(args[0])
+            if len(args) == 2:
+                return rf_from_key(args[1]) - rf_from_key(args[0])
+            return None
+        if name in ('zeros', 'ones', 'empty', 'full', 'ndarray') and args:
+            a0 = args[0]
+            if isinstance(a0, tuple) and a0 and a0[0] == 'tuple':
+                return rf_from_key(a0[1][0]) if a0[1] else None
+            return rf_from_key(a0)
+        if name == 'linspace' and len(args) >= 3:
+            return rf_from_key(args[2])
+        if name in ('zeros_like', 'ones_like', 'empty_like', 'full_like') and args:
+            return length_of_key(args[0])
+        if name in _LEN_FIRST_ARG and args:
+            return length_of_key(args[0])
+        if name in _LEN_ANY_ARG:
+            for a in args:
+                ln = length_of_key(a)
+                if ln is not None:
+                    return ln
+    return None
+
+
+def length_of(v) -> Optional[RF]:
+    if v is None:
+        return None
+    if isinstance(v, TupleVal):
+        return RF.const(len(v.items))
+    if isinstance(v, CompVal):
+        return length_of(v.iter) if not isinstance(v.iter, RF) else length_of_key(key_of(v.iter))
+    if isinstance(v, RF):
+        a = v.single_atom()
+        if a is not None:
+            return length_of_key(a)
+        # element-wise arithmetic of scalars and arrays: the arrays involved share their length
+        lens = []
+        for at in v.atoms():
+            ln = length_of_key(at)
+            if ln is not None and not any(ln.equals(x) for x in lens):
+                lens.append(ln)
+        return lens[0] if len(lens) == 1 else None
+    return None
+
+
 def refuse_peeled_loop(rid: str, drv: FuncInfo):
     """The iteration driver with its first trip peeled off the loop (its = range(number); if first and its: its =
     its[1:]; <first iteration>; for _ in its: ...) performs `number` iterations like the plain loop, but the argument
